@@ -9,7 +9,7 @@ from ..models.binref import BLANK_HASH, RefBin, bits_of
 
 ID = "C12"
 LEVEL = "exploration"
-RUNS = {"quick": 4000, "thorough": 100000}
+RUNS = {"quick": 16000, "thorough": 300000}
 RULE = (
     "each run: seeded key pool (fixed 1/2/4/32-byte or variable-length keys with one-bit neighbours, shared long "
     "prefixes, keys that are prefixes/extensions of each other) and a history of 8-60 events: set / delete / set-empty "
